@@ -181,8 +181,9 @@ pub const PRIMS: [&str; 20] = [
 ];
 
 /// referenced definitions every generated module carries
-pub const BASE_DEFS: &str = "Ref-Int ::= INTEGER\nRef-Seq ::= SEQUENCE { x BOOLEAN }\nRef-Choice ::= CHOICE { a NULL, b BOOLEAN }\nRef-Set ::= SET { y INTEGER }\n";
-pub const REFS: [&str; 4] = ["Ref-Int", "Ref-Seq", "Ref-Choice", "Ref-Set"];
+pub const BASE_DEFS: &str = "Ref-Int ::= INTEGER\nRef-Seq ::= SEQUENCE { x BOOLEAN }\nRef-Choice ::= CHOICE { a NULL, b BOOLEAN }\nRef-Set ::= SET { y INTEGER }\nRef-One ::= INTEGER (1..1)\nRef-Zero ::= INTEGER (0)\n";
+// (Ref-One / Ref-Zero: types that permit a single value are types like any other)
+pub const REFS: [&str; 6] = ["Ref-Int", "Ref-Seq", "Ref-Choice", "Ref-Set", "Ref-One", "Ref-Zero"];
 
 pub struct GenCfg {
     pub max_depth: usize,
